@@ -1,6 +1,8 @@
 import WhVerif.Lemmas.C03
 import WhVerif.Lemmas.C03BFS
 import WhVerif.Lemmas.C03Total
+import WhVerif.Lemmas.C03PipeExample
+import WhVerif.Props.C04
 /-!
 # C03 — phase sets are exactly the read-connected components, named by leftmost variant
 
@@ -112,5 +114,367 @@ theorem find_components_total (phased : List Nat) (reads : List Read) (master : 
     (hk : WhVerif.C03.Total.HetKnows het reads) (hm : WhVerif.C03.Total.MasterOk phased master) :
     ∃ comps, findComponents phased reads master het = .ok comps :=
   WhVerif.C03.Total.findComponents_ok phased reads master het hsorted hnd hk hm
+
+
+/-! ## From the selected reads to the phase sets in the written records
+
+Model: `Model/C03Pipe.lean` (`mergeReadsets`, `accessiblePositions`, `familyStage`, `chromTargets`, `phaseChrom`,
+`readList`) composed with the writer model of C04 (`writeChrom`, repaired = the writer of /repo) and the decoders of C09
+(`decodeCall` = GT/PS statement, else HP statement).  `FamConnected d g f o` is `Connected` over the SELECTED reads of all
+members of family `f` (`f.selected.flatten`), the master block and het map `compute_overall_components` derives. -/
+section pipeline
+open WhVerif.C03.Pipe WhVerif.C04
+
+/-- **the reads used for phasing are the selected reads of all family members**: `merge_readsets` returns a permutation
+of the concatenated selected read sets; nothing is added, dropped or duplicated, and every read is strictly sorted -/
+theorem used_reads_are_the_selected_reads (readsets : List (List SelRead)) (all : List SelRead)
+    (h : mergeReadsets readsets = .ok all) :
+    all.Perm readsets.flatten ∧ ∀ r ∈ all, r.positions.Pairwise (· < ·) := by
+  obtain ⟨h1, h2⟩ := mergeReadsets_spec readsets all h
+  exact ⟨h1, fun r hr => strictSorted_pairwise _ (h2 r hr)⟩
+
+example : mergeReadsets Ex.exReads = .ok Ex.exOut.allReads := by rfl
+
+/-- a position is accessible (can get a phase set at all) iff a selected read of some family member covers it, or — only
+in pedigree mode with genetic haplotyping — it is one of the homozygous positions -/
+theorem accessible_iff_covered_by_selected_read (distrust genetic : Bool) (f : FamilyIn) (o : FamilyOut)
+    (h : familyStage distrust genetic f = .ok o) (p : Nat) :
+    p ∈ o.accessible ↔ (∃ rs ∈ f.selected, ∃ r ∈ rs, p ∈ r.positions) ∨
+      (f.members.length > 1 ∧ genetic = true ∧ p ∈ f.homozygous) :=
+  mem_stage_accessible (familyStage_spec distrust genetic f o h) p
+
+example : familyStage false true Ex.exFam = .ok Ex.exOut := Ex.exFam_stage
+
+/-- **`find_components` cannot raise inside `whatshap phase`**: if `merge_readsets` succeeds (reads sorted, no repeated
+read name), the members' ids agree with their super-reads and every selected read belongs to a member, the whole family
+stage succeeds — for trusted and distrusted genotypes, with and without genetic haplotyping -/
+theorem family_stage_total (distrust genetic : Bool) (f : FamilyIn) (all : List SelRead)
+    (hm : mergeReadsets f.selected = .ok all) (hok : FamilyOk f) :
+    ∃ o, familyStage distrust genetic f = .ok o :=
+  familyStage_ok distrust genetic f all hm hok
+
+example : FamilyOk Ex.trioFam ∧ ∃ all, mergeReadsets Ex.trioFam.selected = .ok all := by
+  refine ⟨⟨?_, rfl, ?_⟩, _, rfl⟩
+  · decide
+  · decide
+
+/-- **the order of the reads is irrelevant** (the tie-break of `ReadSet.sort` is a hash of the read name): two runs of
+`find_components` on read lists with the same members give the same component to every position, and if the
+pipeline's invariants hold for one order the other order does not raise either -/
+theorem read_order_irrelevant (phased : List Nat) (reads reads' : List Read) (master : Option (List Nat))
+    (het : Option HetMap) (hperm : reads.Perm reads') (comps comps' : List (Nat × Nat))
+    (h : findComponents phased reads master het = .ok comps) (h' : findComponents phased reads' master het = .ok comps')
+    (p : Nat) : compOf comps p = compOf comps' p :=
+  compOf_congr (fun _ => hperm.mem_iff) h h' p
+
+example : findComponents [10, 20, 30] [⟨0, [10, 20]⟩, ⟨0, [20, 30]⟩] none none =
+    findComponents [10, 20, 30] [⟨0, [20, 30]⟩, ⟨0, [10, 20]⟩] none none := by rfl
+
+/-- **reads that cover fewer than two phased variants link nothing**: removing them from the read set changes no
+component (they may still make a position accessible, which then forms a set of its own) -/
+theorem short_reads_link_nothing (phased : List Nat) (reads : List Read) (master : Option (List Nat))
+    (het : Option HetMap) (comps comps' : List (Nat × Nat))
+    (h : findComponents phased reads master het = .ok comps)
+    (h' : findComponents phased (reads.filter (usefulB phased)) master het = .ok comps') (p : Nat) :
+    compOf comps p = compOf comps' p := by
+  obtain ⟨rep, hc, hk, hle, _, hconn⟩ := findComponents_rep phased reads master het comps h
+  obtain ⟨rep', hc', hk', hle', _, hconn'⟩ := findComponents_rep phased _ master het comps' h'
+  rw [hc p, hc' p]
+  split
+  · congr 1
+    apply Nat.le_antisymm
+    · have := (connected_filter_useful phased reads master het p (rep' p)).mpr (hconn' p)
+      rw [(hk p (rep' p)).mpr this]; exact hle _
+    · have := (connected_filter_useful phased reads master het p (rep p)).mp (hconn p)
+      rw [(hk' p (rep p)).mpr this]; exact hle' _
+  · rfl
+
+example : findComponents [10, 20, 30] [⟨0, [10, 20]⟩, ⟨0, [30, 99]⟩, ⟨0, [20]⟩] none none = .ok [(10, 10), (20, 10), (30, 30)] ∧
+    [⟨0, [10, 20]⟩, ⟨0, [30, 99]⟩, ⟨0, [20]⟩].filter (usefulB [10, 20, 30]) = [(⟨0, [10, 20]⟩ : Read)] ∧
+    findComponents [10, 20, 30] [⟨0, [10, 20]⟩] none none = .ok [(10, 10), (20, 10), (30, 30)] := by
+  refine ⟨by rfl, by rfl, by rfl⟩
+
+/-- **alleles and qualities of the read variants are irrelevant** for accessibility and components: two read sets that
+agree on sample ids and positions give the same accessible positions and the same `find_components` result -/
+theorem alleles_and_qualities_irrelevant (all all' : List SelRead) (h : all.map SelRead.toRead = all'.map SelRead.toRead)
+    (n : Nat) (g distrust : Bool) (hom : List Nat) (srs : List SuperReads) :
+    accessiblePositions all n g hom = accessiblePositions all' n g hom ∧
+    computeOverallComponents (accessiblePositions all n g hom) (all.map SelRead.toRead) distrust n g hom srs =
+      computeOverallComponents (accessiblePositions all' n g hom) (all'.map SelRead.toRead) distrust n g hom srs := by
+  have hp : all.flatMap (·.positions) = all'.flatMap (·.positions) := by
+    have e : ∀ l : List SelRead, l.flatMap (·.positions) = (l.map SelRead.toRead).flatMap (·.positions) := by
+      intro l; rw [List.flatMap_map]; rfl
+    rw [e all, e all', h]
+  have hacc : accessiblePositions all n g hom = accessiblePositions all' n g hom := by
+    unfold accessiblePositions; rw [hp]
+  exact ⟨hacc, by rw [hacc, h]⟩
+
+example : [(⟨"a", 0, 0, [(10, 0, 30), (20, 1, 5)]⟩ : SelRead)].map SelRead.toRead =
+    [(⟨"b", 3, 0, [(10, 1, 0), (20, 0, 60)]⟩ : SelRead)].map SelRead.toRead := by rfl
+
+/-- **family stage = C03 on the selected reads**: every accessible position gets the phase-set name `1 +` the leftmost
+position connected to it by chains of SELECTED reads of the family's members (plus the master block) -/
+theorem family_ps_is_leftmost_selected (distrust genetic : Bool) (f : FamilyIn) (o : FamilyOut)
+    (h : familyStage distrust genetic f = .ok o) (p : Nat) (hp : p ∈ o.accessible) :
+    ∃ c, psOf o.comps p = some (c + 1) ∧ c ∈ o.accessible ∧ FamConnected distrust genetic f o p c ∧
+      ∀ q, FamConnected distrust genetic f o p q → c ≤ q := by
+  have hs := familyStage_spec distrust genetic f o h
+  obtain ⟨rep, h1, _, _, _, _⟩ := stage_findComponents hs
+  have hc : compOf o.comps p = some (rep p) := by rw [h1 p]; simp [hp]
+  obtain ⟨_, h2, h3, h4⟩ := stage_comp_leftmost hs hc
+  exact ⟨rep p, by simp [psOf, hc, psName], h2, h3, h4⟩
+
+example : psOf Ex.exOut.comps 50 = some 11 ∧ psOf Ex.exOut.comps 40 = some 21 := by decide
+
+/-- **end to end, soundness**: in ANY record written for a requested chromosome, whatever phase statement decodes from the
+call of a phased sample (PS or HP encoded, whatever the input call carried) names the phase set `1 + k`, where `k` is the
+leftmost position connected to the record's position by the selected reads of the sample's family; the alleles are the
+member's two super-read alleles at that position, which differ (a variant that ends up homozygous is never phased).
+No assumption on the order of the records, duplicate positions or the records the writer skips. -/
+theorem written_ps_is_leftmost_selected (rc : RunCfg) (c : ChromIn) (outs : List Out)
+    (h : phaseChrom rc c = .ok outs) (hreq : requested rc c.name = true)
+    (hnames : ((c.families.flatMap (·.members)).map (·.name)).Nodup)
+    (hwf : ∀ r ∈ c.records, ∀ nc ∈ r.calls, WhVerif.C09.WfCall r.format nc.2)
+    (f : FamilyIn) (hf : f ∈ c.families) (fo : FamilyOut) (hfo : familyStage rc.distrust rc.genetic f = .ok fo)
+    (m : Member) (s : SuperReads) (hms : (m, s) ∈ f.members.zip f.superreads)
+    (o : Out) (ho : o ∈ outs) (call : Call) (hcall : clookup o.record.calls m.name = some call)
+    (ph : WhVerif.C09.Phase) (hdec : decodeCall o.record.format call = some ph) :
+    ∃ k : Nat, ph.block = some ((k : Int) + 1) ∧ o.record.pos ∈ fo.accessible ∧ k ∈ fo.accessible ∧
+      FamConnected rc.distrust rc.genetic f fo o.record.pos k ∧
+      (∀ q, FamConnected rc.distrust rc.genetic f fo o.record.pos q → k ≤ q) ∧
+      ∃ v ∈ s.vars, v.1 = o.record.pos ∧ ph.alleles = [some v.2.1, some v.2.2] ∧ v.2.1 ≠ v.2.2 ∧ v.2.1 ≤ 1 ∧ v.2.2 ≤ 1 := by
+  unfold phaseChrom at h
+  cases hts : chromTargets rc c with
+  | error e => simp [hts] at h
+  | ok ts =>
+    simp only [hts, Except.ok.injEq] at h
+    subst h
+    obtain ⟨hfam, hnd⟩ := chromTargets_spec rc c ts hts hreq
+    obtain ⟨fo', hfo', hmem⟩ := hfam f hf
+    have : fo' = fo := by rw [hfo] at hfo'; cases hfo'; rfl
+    subst this
+    have hs := familyStage_spec rc.distrust rc.genetic f fo' hfo
+    have ht : toTarget m.name s fo'.comps ∈ ts := hmem _ (by rw [hs.targets]; exact List.mem_map.mpr ⟨(m, s), hms, rfl⟩)
+    obtain ⟨comp, p, hcomp, hp, hph, hhet⟩ := decode_chrom (pipeCfg rc ts) rfl rfl (hnd hnames) c.records hwf none
+      (toTarget m.name s fo'.comps) ht o ho call hcall ph hdec
+    have hcomp' : compOf fo'.comps o.record.pos = some comp := hcomp
+    obtain ⟨h1, h2, h3, h4⟩ := stage_comp_leftmost hs hcomp'
+    obtain ⟨v, hv, hvpos, hpv, hv1, hv2⟩ := lookupPhase_toTarget hp
+    refine ⟨comp, by rw [hph], h1, h2, h3, h4, v, hv, hvpos, by rw [hph, hpv]; rfl, ?_, hv1, hv2⟩
+    intro heq
+    rw [hpv, heq, WhVerif.C09.sortNat_pair] at hhet
+    simp [isHom] at hhet
+
+/-- non-vacuity: the interleaved single-sample run, tag PS and tag HP: phase sets 11 and 21, position 40 (equal
+super-read alleles) unphased -/
+example (tag : Tag) : Ex.runDecoded (Ex.exRc tag) Ex.exChrom "S" =
+    some [(10, some ⟨some 11, [some 0, some 1]⟩), (20, some ⟨some 21, [some 1, some 0]⟩),
+          (30, some ⟨some 11, [some 1, some 0]⟩), (40, none), (50, some ⟨some 11, [some 0, some 1]⟩)] := Ex.ex_run tag
+
+/-- the hypotheses of `written_ps_is_leftmost_selected` / `written_same_set_iff_connected` hold for that run -/
+example (tag : Tag) : requested (Ex.exRc tag) Ex.exChrom.name = true ∧
+    ((Ex.exChrom.families.flatMap (·.members)).map (·.name)).Nodup ∧
+    (∀ r ∈ Ex.exChrom.records, ∀ nc ∈ r.calls, WhVerif.C09.WfCall r.format nc.2) ∧
+    Ex.exFam ∈ Ex.exChrom.families ∧ familyStage (Ex.exRc tag).distrust (Ex.exRc tag).genetic Ex.exFam = .ok Ex.exOut ∧
+    ((⟨"S", 0⟩ : Member), Ex.exSuper) ∈ Ex.exFam.members.zip Ex.exFam.superreads :=
+  ⟨rfl, by decide, Ex.exRecords_wf, by simp [Ex.exChrom], Ex.exFam_stage, by simp [Ex.exFam]⟩
+
+/-- **end to end, "same phase set iff connected"**: two phase statements decoded from written records of the same
+chromosome, for members of the same family (the same sample, or two members of a pedigree), name the same phase set iff
+the two positions are connected by selected reads of that family (plus the master block) -/
+theorem written_same_set_iff_connected (rc : RunCfg) (c : ChromIn) (outs : List Out)
+    (h : phaseChrom rc c = .ok outs) (hreq : requested rc c.name = true)
+    (hnames : ((c.families.flatMap (·.members)).map (·.name)).Nodup)
+    (hwf : ∀ r ∈ c.records, ∀ nc ∈ r.calls, WhVerif.C09.WfCall r.format nc.2)
+    (f : FamilyIn) (hf : f ∈ c.families) (fo : FamilyOut) (hfo : familyStage rc.distrust rc.genetic f = .ok fo)
+    (m1 m2 : Member) (s1 s2 : SuperReads) (hms1 : (m1, s1) ∈ f.members.zip f.superreads)
+    (hms2 : (m2, s2) ∈ f.members.zip f.superreads)
+    (o1 o2 : Out) (ho1 : o1 ∈ outs) (ho2 : o2 ∈ outs) (call1 call2 : Call)
+    (hcall1 : clookup o1.record.calls m1.name = some call1) (hcall2 : clookup o2.record.calls m2.name = some call2)
+    (ph1 ph2 : WhVerif.C09.Phase) (hdec1 : decodeCall o1.record.format call1 = some ph1)
+    (hdec2 : decodeCall o2.record.format call2 = some ph2) :
+    ph1.block = ph2.block ↔ FamConnected rc.distrust rc.genetic f fo o1.record.pos o2.record.pos := by
+  unfold phaseChrom at h
+  cases hts : chromTargets rc c with
+  | error e => simp [hts] at h
+  | ok ts =>
+    simp only [hts, Except.ok.injEq] at h
+    subst h
+    obtain ⟨hfam, hnd⟩ := chromTargets_spec rc c ts hts hreq
+    obtain ⟨fo', hfo', hmem⟩ := hfam f hf
+    have : fo' = fo := by rw [hfo] at hfo'; cases hfo'; rfl
+    subst this
+    have hs := familyStage_spec rc.distrust rc.genetic f fo' hfo
+    have ht1 : toTarget m1.name s1 fo'.comps ∈ ts :=
+      hmem _ (by rw [hs.targets]; exact List.mem_map.mpr ⟨(m1, s1), hms1, rfl⟩)
+    have ht2 : toTarget m2.name s2 fo'.comps ∈ ts :=
+      hmem _ (by rw [hs.targets]; exact List.mem_map.mpr ⟨(m2, s2), hms2, rfl⟩)
+    obtain ⟨k1, p1, hc1, _, hph1, _⟩ := decode_chrom (pipeCfg rc ts) rfl rfl (hnd hnames) c.records hwf none
+      _ ht1 o1 ho1 call1 hcall1 ph1 hdec1
+    obtain ⟨k2, p2, hc2, _, hph2, _⟩ := decode_chrom (pipeCfg rc ts) rfl rfl (hnd hnames) c.records hwf none
+      _ ht2 o2 ho2 call2 hcall2 ph2 hdec2
+    have hc1' : compOf fo'.comps o1.record.pos = some k1 := hc1
+    have hc2' : compOf fo'.comps o2.record.pos = some k2 := hc2
+    rw [← stage_comp_iff hs hc1' hc2', hph1, hph2]
+    simp only [Option.some.injEq]
+    omega
+
+example : FamConnected false true Ex.exFam Ex.exOut 10 50 :=
+  (stage_comp_iff (familyStage_spec _ _ _ _ Ex.exFam_stage) (by rfl : compOf Ex.exOut.comps 10 = some 10)
+    (by rfl : compOf Ex.exOut.comps 50 = some 10)).mp rfl
+
+/-- **end to end, completeness**: when the writer stands at a biallelic record (an SNV under `--only-snvs`) that is not a
+repetition of the position it tagged last, the sample is a header sample, its family stage gave the position a component
+and the member's (one-per-position) super-reads carry two different alleles from {0, 1} there, then the written call
+decodes to exactly that phase set `1 + component` and those alleles — for tag PS and tag HP -/
+theorem written_phased_complete (rc : RunCfg) (c : ChromIn) (ts : List Target) (hts : chromTargets rc c = .ok ts)
+    (hreq : requested rc c.name = true) (hnames : ((c.families.flatMap (·.members)).map (·.name)).Nodup)
+    (f : FamilyIn) (hf : f ∈ c.families) (fo : FamilyOut) (hfo : familyStage rc.distrust rc.genetic f = .ok fo)
+    (m : Member) (s : SuperReads) (hms : (m, s) ∈ f.members.zip f.superreads) (hhdr : m.name ∈ rc.header)
+    (hsnd : (s.vars.map (·.1)).Nodup)
+    (prev : Option Nat) (r : Record) (halts : r.alts.length = 1) (hprev : prev ≠ some r.pos)
+    (hsnv : rc.onlySnvs = true → isSnv r = true)
+    (c0 : Call) (hwf : WhVerif.C09.WfCall r.format c0)
+    (v : Nat × Nat × Nat) (hv : v ∈ s.vars) (hvpos : v.1 = r.pos) (hne : v.2.1 ≠ v.2.2) (h1 : v.2.1 ≤ 1) (h2 : v.2.2 ≤ 1)
+    (k : Nat) (hk : compOf fo.comps r.pos = some k) :
+    decodeCall (writeRecord (pipeCfg rc ts) prev r).record.format (finalCall (pipeCfg rc ts) prev r m.name c0) =
+      some ⟨some ((k : Int) + 1), [some v.2.1, some v.2.2]⟩ := by
+  obtain ⟨hfam, hnd⟩ := chromTargets_spec rc c ts hts hreq
+  obtain ⟨fo', hfo', hmem⟩ := hfam f hf
+  have : fo' = fo := by rw [hfo] at hfo'; cases hfo'; rfl
+  subst this
+  have hs := familyStage_spec rc.distrust rc.genetic f fo' hfo
+  have ht : toTarget m.name s fo'.comps ∈ ts := hmem _ (by rw [hs.targets]; exact List.mem_map.mpr ⟨(m, s), hms, rfl⟩)
+  have hft : findTarget (pipeCfg rc ts) (toTarget m.name s fo'.comps).name = some (toTarget m.name s fo'.comps) :=
+    findTarget_of_mem (hnd hnames) ht
+  have hlp : lookupPhase false (toTarget m.name s fo'.comps) r.pos = some [v.2.1, v.2.2] := by
+    rw [← hvpos]; exact lookupPhase_toTarget_of_mem m.name s fo'.comps hsnd v hv h1 h2
+  have hre : reaches (pipeCfg rc ts) prev r = true :=
+    reaches_of_target (pipeCfg rc ts) rfl prev r halts hprev hsnv _ hhdr hft (by simp [toTarget, hk]) (by simp [hlp])
+  have hfin := decode_final_of_reaches (pipeCfg rc ts) rfl rfl prev r m.name _ hft c0 hwf hre
+  rw [hfin]
+  unfold WhVerif.C09.written
+  have hal : alookup (toTarget m.name s fo'.comps).comps r.pos = some k := by
+    rw [alookup_eq_lookup]; exact hk
+  rw [hal, hlp]
+  have hhet : isHom (sortNat [v.2.1, v.2.2]) = false := by
+    rw [WhVerif.C09.sortNat_pair]
+    split <;> simp [isHom] <;> omega
+  simp [hhet]
+
+/-- non-vacuity: the theorem applied to the record at position 10 of the interleaved run, tag HP -/
+example : decodeCall (writeRecord (pipeCfg (Ex.exRc .HP) Ex.exOut.targets) none (Ex.mkRec 10 [some 0, some 1])).record.format
+      (finalCall (pipeCfg (Ex.exRc .HP) Ex.exOut.targets) none (Ex.mkRec 10 [some 0, some 1]) "S" ⟨some [some 0, some 1], false, []⟩) =
+    some ⟨some 11, [some 0, some 1]⟩ :=
+  written_phased_complete (Ex.exRc .HP) Ex.exChrom Ex.exOut.targets rfl rfl (by decide) Ex.exFam (by simp [Ex.exChrom])
+    Ex.exOut Ex.exFam_stage ⟨"S", 0⟩ Ex.exSuper (by simp [Ex.exFam]) (by simp [Ex.exRc]) (by decide) none
+    (Ex.mkRec 10 [some 0, some 1]) rfl (by simp) (by simp [Ex.exRc]) ⟨some [some 0, some 1], false, []⟩
+    (Ex.mkRec_wf 10 [some 0, some 1] ("S", ⟨some [some 0, some 1], false, []⟩) (by simp [Ex.mkRec])) (10, 0, 1) (by simp [Ex.exSuper]) rfl (by decide) (by decide)
+    (by decide) 10 rfl
+
+/-- **a chromosome excluded by `--chromosome` gets no phase set**: it is written with two empty dicts, and every one of
+its records comes out unchanged -/
+theorem unrequested_chromosome_unchanged (rc : RunCfg) (c : ChromIn) (hreq : requested rc c.name = false) :
+    ∃ outs, phaseChrom rc c = .ok outs ∧ outRecords outs = c.records := by
+  unfold phaseChrom
+  rw [chromTargets_unrequested rc c hreq]
+  exact ⟨_, rfl, (WhVerif.Props.C04.untouched_when_no_targets (pipeCfg rc []) rfl none c.records).1⟩
+
+example : requested ⟨.PS, false, false, true, ["S"], ["chr2"]⟩ "chr1" = false := by decide
+
+/-- **per-sample / per-family and per-chromosome state**: the targets handed to the writer for a chromosome are, family
+by family, the family's own stage result — a function of that family's selected reads, super-reads and homozygous
+positions on THIS chromosome only (`phaseFile` maps `phaseChrom` over the chromosomes; nothing is carried over) -/
+theorem targets_are_per_family (rc : RunCfg) (c : ChromIn) (ts : List Target) (hts : chromTargets rc c = .ok ts)
+    (hreq : requested rc c.name = true) (f : FamilyIn) (hf : f ∈ c.families) :
+    ∃ fo, familyStage rc.distrust rc.genetic f = .ok fo ∧ ∀ t ∈ fo.targets, t ∈ ts ∧ t.comps = fo.comps := by
+  obtain ⟨hfam, _⟩ := chromTargets_spec rc c ts hts hreq
+  obtain ⟨fo, hfo, hmem⟩ := hfam f hf
+  refine ⟨fo, hfo, fun t ht => ⟨hmem t ht, ?_⟩⟩
+  rw [(familyStage_spec _ _ f fo hfo).targets] at ht
+  obtain ⟨x, _, rfl⟩ := List.mem_map.mp ht
+  rfl
+
+example : chromTargets (Ex.exRc .PS) Ex.exChrom = .ok Ex.exOut.targets := by rfl
+
+/-- **read list**: `--output-read-list` has one row per read used for phasing, in their order; the phase-set column of a
+row is `1 +` the leftmost position connected (by the selected reads of the family) to the read's FIRST variant; with
+trusted genotypes every variant of the read lies in that same phase set -/
+theorem read_list_phase_set (distrust genetic : Bool) (f : FamilyIn) (o : FamilyOut)
+    (h : familyStage distrust genetic f = .ok o) (bip : List Nat) (rows : List ReadListRow)
+    (hrows : familyReadList f o bip = .ok rows) :
+    rows.map (·.name) = o.allReads.map (·.name) ∧
+    ∀ row ∈ rows, ∃ r ∈ f.selected.flatten, ∃ p rest k, r.positions = p :: rest ∧ row.name = r.name ∧
+      row.sourceId = r.sourceId ∧ row.first = p + 1 ∧ row.phaseset = k + 1 ∧ psOf o.comps p = some row.phaseset ∧
+      FamConnected distrust genetic f o p k ∧ (∀ q, FamConnected distrust genetic f o p q → k ≤ q) ∧
+      (distrust = false → ∀ q ∈ r.positions, psOf o.comps q = some row.phaseset) := by
+  have hs := familyStage_spec distrust genetic f o h
+  obtain ⟨_, hnames, hall⟩ := readList_spec hrows
+  refine ⟨hnames, fun row hrow => ?_⟩
+  obtain ⟨r, hr, hap, hrr⟩ := hall row hrow
+  obtain ⟨sname, comps, p, rest, k, hsn, hlk, hpos, hk, hre⟩ := readListRow_spec hrr
+  have hcomps : comps = o.comps := lookup_member_comps_eq o.comps f.members sname comps hlk
+  subst hcomps
+  obtain ⟨hpa, _, hconn, hmin⟩ := stage_comp_leftmost hs hk
+  have hrsel := (mem_allReads hs r).mp hr
+  refine ⟨r, hrsel, p, rest, k, hpos, by rw [hre], by rw [hre], by rw [hre], by rw [hre],
+    by rw [hre]; simp [psOf, hk, psName], hconn, hmin, ?_⟩
+  intro hd q hq
+  subst hd
+  -- the read itself links its first position with `q`
+  have hqa : q ∈ o.accessible :=
+    (mem_stage_accessible hs q).mpr (Or.inl (by
+      obtain ⟨rs, hrs, hrin⟩ := List.mem_flatten.mp hrsel
+      exact ⟨rs, hrs, r, hrin, hq⟩))
+  have hhet : famHet false genetic f o = none := by
+    unfold famHet overallParams; simp
+  have hlink : FamConnected false genetic f o p q := by
+    refine Chain.single (Or.inl ⟨r.toRead, List.mem_map.mpr ⟨r, hrsel, rfl⟩, ?_, hq, hpa, hqa, ?_, ?_⟩)
+    · show p ∈ r.positions
+      rw [hpos]; simp
+    · rw [hhet]; trivial
+    · rw [hhet]; trivial
+  obtain ⟨rep, h1, _, _, _, _⟩ := stage_findComponents hs
+  have hkq : compOf o.comps q = some (rep q) := by rw [h1 q]; simp [hqa]
+  have : k = rep q := (stage_comp_iff hs hk hkq).mpr hlink
+  rw [hre]
+  simp [psOf, hkq, psName, this]
+
+example : familyReadList Ex.exFam Ex.exOut [0, 1, 0] =
+    .ok [⟨"a", 0, "S", 11, 0, 2, 11, 31⟩, ⟨"b", 0, "S", 21, 1, 2, 21, 41⟩, ⟨"c", 0, "S", 11, 0, 2, 31, 51⟩] := by rfl
+
+/-- the read list cannot raise in the pipeline: one haplotype per read, every read belongs to a member and has a variant -/
+theorem read_list_total (distrust genetic : Bool) (f : FamilyIn) (o : FamilyOut)
+    (h : familyStage distrust genetic f = .ok o) (bip : List Nat) (hlen : bip.length = o.allReads.length)
+    (hown : ∀ rs ∈ f.selected, ∀ r ∈ rs, (∃ m ∈ f.members, m.id = r.sample) ∧ r.positions ≠ []) :
+    ∃ rows, familyReadList f o bip = .ok rows := by
+  have hs := familyStage_spec distrust genetic f o h
+  unfold familyReadList readList
+  have hl : (o.allReads.length != bip.length) = false := by simp [hlen]
+  simp only [hl, Bool.false_eq_true, if_false]
+  apply readListRows_ok _ _ hlen.symm
+  intro r hr
+  obtain ⟨rs, hrs, hrin⟩ := List.mem_flatten.mp ((mem_allReads hs r).mp hr)
+  obtain ⟨hm, hne⟩ := hown rs hrs r hrin
+  refine ⟨hm, ?_⟩
+  cases hp : r.positions with
+  | nil => exact absurd hp hne
+  | cons p rest =>
+    refine ⟨p, rest, rfl, ?_⟩
+    obtain ⟨rep, h1, _, _, _, _⟩ := stage_findComponents hs
+    have hpa : p ∈ o.accessible :=
+      (mem_stage_accessible hs p).mpr (Or.inl ⟨rs, hrs, r, hrin, by rw [hp]; simp⟩)
+    rw [h1 p]; simp [hpa]
+
+example : [0, 1, 0].length = Ex.exOut.allReads.length ∧
+    ∀ rs ∈ Ex.exFam.selected, ∀ r ∈ rs, (∃ m ∈ Ex.exFam.members, m.id = r.sample) ∧ r.positions ≠ [] := by
+  refine ⟨rfl, ?_⟩
+  intro rs hrs r hr
+  simp only [Ex.exFam, Ex.exReads, List.mem_singleton] at hrs
+  subst hrs
+  simp only [List.mem_cons, List.not_mem_nil, or_false] at hr
+  rcases hr with rfl | rfl | rfl <;> exact ⟨⟨⟨"S", 0⟩, by simp [Ex.exFam], rfl⟩, by simp [SelRead.positions]⟩
+
+end pipeline
 
 end WhVerif.Props.C03
